@@ -164,7 +164,7 @@ fn history<Q: Rep>(tc0: TC<Q>, g: &mut SplitMix64, t_total: usize, sf: usize, mf
 
 fn mode_histories(seed: u64, thorough: bool) {
     let mut g = SplitMix64::new(seed ^ 0xc05);
-    let ladders = if thorough { 700 } else { 42 };
+    let ladders = if thorough { 700 } else { 126 };
     for l in 0..ladders {
         let n = 2 + (l % 7) as usize;
         let kind = g.below(6);
@@ -197,7 +197,7 @@ fn mode_histories(seed: u64, thorough: bool) {
         history(tc, &mut g, t_total, sf, mf, 2);
     }
     // generic replicas (beta ladders; the container refuses anything else)
-    let gl = if thorough { 140 } else { 14 };
+    let gl = if thorough { 140 } else { 28 };
     for l in 0..gl {
         let n = 2 + (l % 7) as usize;
         let nvars = 2 + g.below(2) as usize;
